@@ -26,10 +26,36 @@ CLAIM = {
              "(maybe_pair, implied exchange, filled converted amounts, the two price records inserted, the unbalanced "
              "residual) is symmetric in the order of the two entries; the printed form of an amount (repaired "
              "InlinePrintAmount), the lines of `okane balance`, the `okane accounts` list and the amount-carrying error "
-             "texts are the same for every order (the sorted list is unique because keys are distinct). Negations are "
-             "proved for the unsorted printer (F13 before its fix), for maybe_pair alone, and for the AND-element of import "
-             "rewrite rules (F14, still open). The end-to-end statements C13_<command> are recorded as Props; whole-command "
-             "determinism of format, accounts, balance (raw, -X up-to-date / historical, date ranges), register, "
+             "texts are the same for every order (the sorted list is unique because keys are distinct). "
+             "Lifted to the command MODELS (not to the binary): a relation `st ~ st'` on the accumulator of `process` (every "
+             "hash map in it - both intern stores, the declared formats, the balance and each account's amount, the amounts "
+             "of the evaluated postings - up to a permutation of its entries, price events up to the order of their two "
+             "sides) is preserved by eval_mut, name resolution, process_posting, check_balance, add_transaction and process, "
+             "which fail at the same entry with the same error (same message text), reach the same panic site or run out of "
+             "fuel together (C13_process, C13_stepEntry, C13_addTransaction, ...); for a model of process that re-lays out "
+             "every map after every entry (layout history pi) and, inside add_transaction, the context and the loop state "
+             "(running residual, account balances, intern stores) after every posting (rho), the result does not depend on "
+             "pi or rho (C13_process_relayout, C13_process_relayout2; reversing every map is an instance: relayout_rev, "
+             "relayout2_rev). The "
+             "lines printed by balance (whole history and --start/--end), accounts and register are EQUAL for related "
+             "ledgers because the model sorts before printing, so the text of each command as a function of the entry list "
+             "does not depend on pi, rho (C13_balance_cmd, C13_accounts_cmd, C13_register_cmd and the ..._cmd_fine versions: "
+             "instances of the recorded statements C13_balance / C13_accounts / C13_register with the layout histories as "
+             "orders; C13_accounts_cmd is about the scan `report::accounts` really does - intern the account of every "
+             "posting, no book-keeping - with the layout history of the intern store as orders). With conversion: "
+             "insert_price(x,y) and insert_price(y,x) leave the same repository (C13_insertPrice_swap, "
+             "C13_price_repository), compute_price_table / convert_amount / Ledger::balance (up-to-date, historical, date "
+             "ranges) / Ledger::eval return the same result or the same error for related ledgers and repositories "
+             "(C13_convertAmount, C13_balance_query, C13_eval_query) provided the neighbour order of compute_price_table "
+             "does not depend on the layout of the inner map - true of the sorted order in use since fix b2e85da "
+             "(ordSorted_string_ok), false of the raw hash order (ordId_not_ok); hence C13_balance_exchange_cmd and "
+             "C13_eval_cmd (+ _fine; the heap's pop order is any function of the queue). "
+             "Negations are proved for the unsorted printer (F13 before its fix), for maybe_pair alone, and for the "
+             "AND-element of import rewrite rules (F14, still open). NOT proved: anything about format and import as whole "
+             "commands (their statements C13_format / C13_import stay recorded Props), the loader / parser / price-db "
+             "reader in front of process, re-layouts at a finer grain than one posting inside the relayout model "
+             "(the congruence theorems themselves hold per operation), and that the model is the binary. "
+             "Whole-command determinism of format, accounts, balance (raw, -X up-to-date / historical, date ranges), register, "
              "primitive eval / flatten / format and import (csv, camt053, viseca) is OBSERVED on the real binary: every "
              "generated input x command is run in N fresh processes (quick 6, thorough 24) and stdout, stderr and exit "
              "status must be byte-identical. A source probe lists every iteration over a HashMap/HashSet in core/src and "
@@ -51,6 +77,32 @@ THEOREMS = [NS + t for t in [
     "bkErrText_unbalanced_perm", "bkErrText_assertion_perm", "C13_balance_report",
     "inlineDisplayUnsorted_order_dependent", "maybePair_order_dependent", "C13_andElement_false",
     "andFold_perm_of_independent", "keyOrder_string",
+    # command level (Lemmas/C13Cmd*.lean, restated in Props/C13.lean, section Commands)
+    "C13_process", "C13_process_error_text", "C13_stepEntry", "C13_addTransaction", "C13_addTransaction_resolved",
+    "C13_processPosting", "C13_checkBalance", "C13_evalMut", "C13_process_relayout",
+    "C13_balance_lines", "C13_accounts_lines", "C13_register_lines",
+    "C13_balance_cmd", "C13_accounts_cmd", "C13_accounts_processed_cmd", "C13_register_cmd",
+    "accountsScanCmd_det", "accountsScr_meq", "storeRelayout_rev",
+    "C13_price_repository", "C13_insertPrice_swap", "C13_convertAmount", "C13_balance_query", "C13_eval_query",
+    "C13_balance_exchange_cmd", "C13_eval_cmd", "ordSorted_string_ok", "ordId_not_ok",
+    "processFrom_meq", "processScr_meq", "process_wf", "relayout_rev", "relayout_rev_even", "relayoutRev_meq",
+    "stepEntry_meq", "addTransactionSyntax_meq", "loopSyntax_meq", "resolvePosting_meq", "evalExprWith_meq",
+    "evalRo_meq", "addTransaction_meq", "finishK_meq", "checkBalance_meq", "impliedExchange_meq",
+    "loopPostings_meq", "stepPosting_meq", "processPosting_meq", "ErrEq.text", "perm_of_ext",
+    "balanceReport_meq", "accountsReport_meq", "balanceNoConv_meq", "rangeBalanceRaw_meq", "register_meq",
+    "registerReport_meq", "postingsOf_meq", "balanceLines_meq", "registerLines_meq", "accountsLines_meq",
+    "balanceCmd_det", "accountsCmd_det", "registerCmd_det", "balanceXCmd_det", "evalCmd_det",
+    "isortBy_meq", "isortBy_balEq", "priceTable_repoEq", "convertAmount_meq", "recomputeLoop_meq",
+    "upToDateLoop_meq", "balance_meq", "eval_meq", "insertPrice_swap", "insertPrice_pev", "insertAll_meq",
+    "buildFrom_meq", "build_meq", "balanceXLines_meq", "evalLine_meq", "inlineDisplay_meq",
+    "Amount.add_meq", "Amount.sub_meq", "Amount.setPartial_meq", "Amount.assertBalance_meq",
+    "EvEq.checkAdd", "EvEq.checkSub", "EvEq.checkMul", "EvEq.checkDiv", "EvEq.toPosting", "EvEq.toSingle",
+    "NEq.addAmount", "NEq.addPostingAmount", "NEq.setPartial", "NEq.round",
+    "StoreEq.ensure", "StoreEq.insertCanonical", "StoreEq.insertAlias",
+    "C13_process_relayout2", "C13_balance_cmd_fine", "C13_accounts_processed_cmd_fine", "C13_register_cmd_fine",
+    "C13_balance_exchange_cmd_fine", "C13_eval_cmd_fine", "processScr2_meq", "loopSyntaxScr_meq",
+    "stepEntryScr_meq", "relayout2_rev", "cmd_det2", "balanceXOut_eq", "evalOut_eq", "cmdText_eq",
+    "processScr_id", "loopSyntaxScr_id",
 ]]
 
 SITES_FILE = os.path.join(VERIF, "corpus", "C13", "iteration_sites.json")
